@@ -3,6 +3,10 @@
 package main
 
 import (
+	"crypto/ecdsa"
+	"crypto/elliptic"
+	"crypto/rand"
+	"crypto/x509"
 	"crypto/x509/pkix"
 	"encoding/asn1"
 	"fmt"
@@ -15,6 +19,42 @@ func init() {
 	gens["C15"] = genC15
 	// dn <der> <decoded…>: names.FromRawDN on the DER RDNSequence
 	ops["dn"] = func(a []string) string { return "str " + hxs(names.FromRawDN(unhx(a[0]))) }
+	// dncert <der> <decoded…>: the same name as Subject AND Issuer of a hand-assembled certificate, through file.Inspect
+	ops["dncert"] = func(a []string) string {
+		i, err := inspectBytes("c.der", dnCert(unhx(a[0])))
+		if err != nil {
+			return "err"
+		}
+		var subj, iss *string
+		for k := range i.Attributes {
+			switch i.Attributes[k].Name {
+			case "Subject":
+				subj = &i.Attributes[k].Value
+			case "Issuer":
+				iss = &i.Attributes[k].Value
+			}
+		}
+		if subj == nil || iss == nil {
+			return "nosubject " + hxs(i.Description)
+		}
+		if *subj != *iss {
+			return "differ " + hxs(*subj) + " " + hxs(*iss)
+		}
+		return "str " + hxs(*subj)
+	}
+}
+
+var dnCertSpki []byte
+
+// dnCert: a version 3 certificate whose subject and issuer are both the given RDNSequence
+func dnCert(name []byte) []byte {
+	if dnCertSpki == nil {
+		k, _ := ecdsa.GenerateKey(elliptic.P256(), rand.Reader)
+		dnCertSpki, _ = x509.MarshalPKIXPublicKey(&k.PublicKey)
+	}
+	alg := xSeq(xOID(1, 2, 840, 10045, 4, 3, 2))
+	tbs := xSeq(xTLV(0xA0, xInt(2)), xInt(0x77), alg, name, xSeq(xStr(23, "200101000000Z"), xStr(23, "300101000000Z")), name, dnCertSpki)
+	return xSeq(tbs, alg, xTLV(0x03, []byte{0}, make([]byte, 64)))
 }
 
 type atv struct {
@@ -83,7 +123,15 @@ func emitDN(rdns [][]atv) {
 		}
 	}
 	emit("dn", args...)
+	dnCases++
+	if dnCases%dnCertEvery == 0 || len(rdns) > 1 {
+		if _, err := x509.ParseCertificate(dnCert(der)); err == nil {
+			emit("dncert", args...)
+		}
+	}
 }
+
+var dnCases, dnCertEvery = 0, 7
 
 func genC15(tier string, r *rng) {
 	cn := asn1.ObjectIdentifier{2, 5, 4, 3}
